@@ -2,12 +2,13 @@
 """keep_mutant.py <prop> <A|B> <confirm-json> : copy a confirmed seeded change into /verif/seeded/<prop>-<variant>/ with meta.json"""
 import sys, os, json, shutil, glob
 prop, var, conf = sys.argv[1], sys.argv[2], json.loads(sys.argv[3])
-src = '/tmp/mut/%s/_deliver/%s' % (prop, var); dst = '/verif/seeded/%s-%s' % (prop, var)
+import os as _os
+src = '%s/%s/_deliver/%s' % (_os.environ.get('MUT_BASE', '/tmp/mut'), prop, var); dst = '/verif/seeded/%s-%s' % (prop, var)
 os.makedirs(dst, exist_ok=True)
 for f in glob.glob(src + '/*'):
     if os.path.isfile(f) and os.path.getsize(f) < 200000: shutil.copy(f, dst)
 readme = open(src + '/README.md').read() if os.path.exists(src + '/README.md') else ''
-meta = dict(property=prop, variant=var, breaks=prop, needs_to_manifest=readme[:1500],
+meta = dict(property=prop, variant=var, breaks=prop, wave=int(_os.environ.get('MUT_WAVE', '0')) or None, needs_to_manifest=readme[:1500],
             confirmed=dict(how='engine/confirm_mutant.sh in a scratch worktree: patch applies, ninja builds, whole ninja_test passes with the patch, demo run.sh fails with the patch and passes without', result=conf),
             detected_by=None)
 old = os.path.join(dst, 'meta.json')
